@@ -5,6 +5,7 @@ hypotheses of the preservation theorem — for every program.
 import AvoVerif.Props.C01Tables
 import AvoVerif.Props.C02Term
 import AvoVerif.Props.C09
+import AvoVerif.Props.C03Pipeline
 namespace Avo.Pipeline
 open Avo.Reg Avo.MaskSet Avo.Live Avo.LiveBool Avo.Alloc Avo.AllocCheck Avo.Machine
 
@@ -166,5 +167,213 @@ theorem mkLProg_wf (nodes : List Node) (g : Graph) (h : buildCFG nodes = .ok g)
   rw [hget] at hs
   rw [hlen]
   exact buildCFG_succ_in_range nodes g h i (by rw [← hlen]; exact hi) s hs
+
+end Avo.Pipeline
+
+/-! ### From the renamed program to the program BindRegisters produces (composition with C03) -/
+namespace Avo.Pipeline
+open Avo.Reg Avo.MaskSet Avo.Live Avo.Alloc Avo.AllocCheck Avo.Machine
+
+theorem locsOf_of_id_mask (A : List (Nat × Nat)) (o b : R) (hid : b.id = lookupDefault A o.id) (hm : b.mask = o.mask) :
+    locsOf b = (locsOf o).map (ρ A) := by
+  unfold locsOf
+  rw [hid, hm, List.map_map]
+  rfl
+
+/-- **Binding a register is renaming its byte locations**: what the statement of C03 (`BoundOK`) says about the
+register found after `BindRegisters` is exactly that its locations are the `ρ A`-images of the original ones. -/
+theorem locsOf_bound (tbl : List RegRow) (A : List (Nat × Nat)) (o b : R) (hs : checkAllocShape A = true)
+    (h : BoundOK tbl A o b) : locsOf b = (locsOf o).map (ρ A) := by
+  obtain ⟨_, hphys, hvirt⟩ := h
+  by_cases hv : idIsVirtual o.id = true
+  · obtain ⟨p, row, hf, _, hb, hid, hm, _, _⟩ := hvirt hv
+    apply locsOf_of_id_mask
+    · rw [hb]; simp only [lookupDefault, hf]; exact hid
+    · rw [hb]; exact hm
+  · have hv' : idIsVirtual o.id = false := by simpa using hv
+    rw [hphys hv']
+    exact locsOf_of_id_mask A o o (lookupDefault_phys A hs o.id hv').symm rfl
+
+/-- `locsOf (bindReg … r) = (locsOf r).map ρ` for whatever the allocator model returns. -/
+theorem locsOf_bindReg (is : List AInstr) (A : List (Nat × Nat)) (h : allocate Avo.Gen.regs is = .ok A)
+    (o b : R) (hb : bindReg Avo.Gen.regs A o = some b) : locsOf b = (locsOf o).map (ρ A) :=
+  locsOf_bound _ A o b (avo_alloc_valid_installed is A h #[] (by intro c hc; simp at hc)).2
+    (compile_bound_ok is A h o b hb)
+
+/-- `bs` is `os` bound register by register with the model of `BindRegisters`. -/
+def BoundList (A : List (Nat × Nat)) : List R → List R → Prop
+  | [], [] => True
+  | o :: os, b :: bs => bindReg Avo.Gen.regs A o = some b ∧ BoundList A os bs
+  | _, _ => False
+
+/-- `c'` is instruction `c` after `BindRegisters`: every declared input and output register replaced by what the
+bind model returns; control flow untouched. -/
+def BoundInstr (A : List (Nat × Nat)) (c c' : CInstr) : Prop :=
+  BoundList A c.uses c'.uses ∧ BoundList A c.defs c'.defs ∧ c'.succ = c.succ
+
+instance decBoundList (A : List (Nat × Nat)) : (xs ys : List R) → Decidable (BoundList A xs ys)
+  | [], [] => isTrue trivial
+  | o :: os, b :: bs =>
+    have := decBoundList A os bs
+    inferInstanceAs (Decidable (bindReg Avo.Gen.regs A o = some b ∧ BoundList A os bs))
+  | [], _ :: _ => isFalse (fun h => h)
+  | _ :: _, [] => isFalse (fun h => h)
+
+instance (A : List (Nat × Nat)) (c c' : CInstr) : Decidable (BoundInstr A c c') := by
+  unfold BoundInstr; infer_instance
+
+theorem flatMap_locs_bound (A : List (Nat × Nat))
+    (hR : ∀ o b, bindReg Avo.Gen.regs A o = some b → locsOf b = (locsOf o).map (ρ A)) :
+    ∀ xs ys, BoundList A xs ys → ys.flatMap locsOf = (xs.flatMap locsOf).map (ρ A)
+  | [], [], _ => rfl
+  | o :: os, b :: bs, h => by
+    simp only [List.flatMap_cons, List.map_append, hR _ _ h.1, flatMap_locs_bound A hR os bs h.2]
+  | [], _ :: _, h => by cases h
+  | _ :: _, [], h => by cases h
+
+theorem toInstr_bound (is : List AInstr) (A : List (Nat × Nat)) (h : allocate Avo.Gen.regs is = .ok A)
+    (c c' : CInstr) (hb : BoundInstr A c c') (sem : List Val → Mem → List Val × Mem × Nat) :
+    toInstr sem c' = renameI (ρ A) (toInstr sem c) := by
+  obtain ⟨hu, hd, hs⟩ := hb
+  have hR := fun o b hb => locsOf_bindReg is A h o b hb
+  simp only [toInstr, renameI, flatMap_locs_bound A hR _ _ hu, flatMap_locs_bound A hR _ _ hd, hs]
+
+/-- The program whose registers were bound instruction by instruction IS the renamed program of the preservation theorem. -/
+theorem bound_prog_is_renamed (is : List AInstr) (A : List (Nat × Nat)) (h : allocate Avo.Gen.regs is = .ok A)
+    (P P' : CProg) (hsz : P'.size = P.size)
+    (hb : ∀ n, n < P.size → BoundInstr A (P.getD n default) (P'.getD n default))
+    (sems : Nat → List Val → Mem → List Val × Mem × Nat) :
+    toProg P' sems = rename (ρ A) (toProg P sems) := by
+  unfold toProg rename
+  congr 1
+  funext n
+  by_cases hn : n < P.size
+  · have hn' : n < P'.size := by omega
+    have h1 : P[n]? = some (P.getD n default) := by simp [Array.getD_eq_getD_getElem?, hn]
+    have h2 : P'[n]? = some (P'.getD n default) := by simp [Array.getD_eq_getD_getElem?, hn']
+    simp only [h1, h2, Option.map_some]
+    rw [toInstr_bound is A h _ _ (hb n hn)]
+  · have hn' : ¬ n < P'.size := by omega
+    simp [hn, hn']
+
+/-- **C01 for the code that is emitted.** As `pipeline_preserves`, but the second execution runs the program `P'`
+obtained by binding every declared register with the model of `BindRegisters` (the program C03's statement speaks
+about), not an abstractly renamed one. -/
+theorem compiled_preserves (P : LProg) (hwf : WF P) (is : List AInstr) (A : List (Nat × Nat))
+    (his : ∀ i, i < P.size → ∃ a ∈ is, a.outs = (P.getD i default).defs ∧
+        a.liveOut = getMS (liveness P (fuelBound P)).1.outs i)
+    (hA : allocate Avo.Gen.regs is = .ok A)
+    (P' : CProg) (hsz : P'.size = P.size)
+    (hb : ∀ n, n < P.size → BoundInstr A ((toCProg P (liveness P (fuelBound P)).1).getD n default) (P'.getD n default))
+    (sems : Nat → List Val → Mem → List Val × Mem × Nat)
+    (hsem : WFSem (toProg (toCProg P (liveness P (fuelBound P)).1) sems))
+    (σ σ' : State Loc) (h0 : Rel (liveOf (toCProg P (liveness P (fuelBound P)).1)) (ρ A) σ σ') (k : Nat) :
+    let Q := toProg (toCProg P (liveness P (fuelBound P)).1) sems
+    (run Q k σ).mem = (run (toProg P' sems) k σ').mem ∧ (run Q k σ).pc = (run (toProg P' sems) k σ').pc := by
+  intro Q
+  have hren := bound_prog_is_renamed is A hA (toCProg P (liveness P (fuelBound P)).1) P'
+    (by rw [toCProg_size]; exact hsz) (by intro n hn; rw [toCProg_size] at hn; exact hb n hn) sems
+  rw [hren]
+  exact pipeline_preserves P hwf is A his hA sems hsem σ σ' h0 k
+
+end Avo.Pipeline
+
+/-! ### The whole chain with every hypothesis discharged, and non-vacuity -/
+namespace Avo.Pipeline
+open Avo.Reg Avo.MaskSet Avo.Live Avo.Alloc Avo.AllocCheck Avo.Machine Avo.Func
+
+/-- What `AllocateRegisters` is given for a liveness input: per instruction the registers, the outputs and the
+live-out set computed by the liveness model. -/
+def aInstrsOf (P : LProg) : List AInstr :=
+  (List.range P.size).map (fun i => ⟨(P.getD i default).uses ++ (P.getD i default).defs, (P.getD i default).defs,
+    getMS (liveness P (fuelBound P)).1.outs i, []⟩)
+
+theorem aInstrsOf_spec (P : LProg) (i : Nat) (hi : i < P.size) :
+    ∃ a ∈ aInstrsOf P, a.outs = (P.getD i default).defs ∧ a.liveOut = getMS (liveness P (fuelBound P)).1.outs i :=
+  ⟨_, List.mem_map.mpr ⟨i, List.mem_range.mpr hi, rfl⟩, rfl, rfl⟩
+
+/-- **C01, closed form.** For every well-formed program that reads only register bytes it has written: if the
+allocator model succeeds on the liveness model's result, then — for every instruction meaning that is a function of
+the declared reads, from the first instruction, with equal memory and equal physical registers, whatever the private
+storage of the virtual registers holds — the private-storage execution and the execution of the bound program agree
+on memory and control at every step. No premise about liveness, validity of the allocation or the initial relation
+is left. -/
+theorem compiled_preserves_from_entry (P : LProg) (hwf : WF P) (A : List (Nat × Nat))
+    (hA : allocate Avo.Gen.regs (aInstrsOf P) = .ok A)
+    (he : checkEntry (toCProg P (liveness P (fuelBound P)).1) = true)
+    (P' : CProg) (hsz : P'.size = P.size)
+    (hb : ∀ n, n < P.size → BoundInstr A ((toCProg P (liveness P (fuelBound P)).1).getD n default) (P'.getD n default))
+    (sems : Nat → List Val → Mem → List Val × Mem × Nat)
+    (hsem : WFSem (toProg (toCProg P (liveness P (fuelBound P)).1) sems))
+    (σ σ' : State Loc) (hpc : σ.pc = some 0) (hpc' : σ'.pc = some 0) (hmem : σ.mem = σ'.mem)
+    (hphys : ∀ ℓ : Loc, idIsVirtual ℓ.1 = false → σ.regs ℓ = σ'.regs ℓ) (k : Nat) :
+    let Q := toProg (toCProg P (liveness P (fuelBound P)).1) sems
+    (run Q k σ).mem = (run (toProg P' sems) k σ').mem ∧ (run Q k σ).pc = (run (toProg P' sems) k σ').pc :=
+  compiled_preserves P hwf (aInstrsOf P) A (aInstrsOf_spec P) hA P' hsz hb sems hsem σ σ'
+    (entry_rel _ A he (avo_alloc_valid_installed _ A hA #[] (by intro c hc; simp at hc)).2 σ σ' hpc hpc' hmem hphys) k
+
+/-- A three-instruction loop: `v := …; w := f(v); use v.8L, w; branch back to the second instruction or leave`. -/
+def exP : LProg :=
+  #[⟨[], [⟨257, 15⟩], [some 1]⟩, ⟨[⟨257, 15⟩], [⟨65793, 15⟩], [some 2]⟩, ⟨[⟨257, 1⟩, ⟨65793, 15⟩], [], [some 1, none]⟩]
+
+theorem exP_wf : WF exP := by
+  intro i hi s hs
+  have hi' : i < 3 := hi
+  have : i = 0 ∨ i = 1 ∨ i = 2 := by omega
+  show s < 3
+  rcases this with rfl | rfl | rfl
+  · have : s = 1 := by simpa [exP] using hs
+    omega
+  · have : s = 2 := by simpa [exP] using hs
+    omega
+  · have : s = 1 := by simpa [exP] using hs
+    omega
+
+theorem exP_allocates : allocate Avo.Gen.regs (aInstrsOf exP) = .ok [(257, 256), (65793, 65792)] := by
+  have h : (allocate Avo.Gen.regs (aInstrsOf exP)).toOption = some [(257, 256), (65793, 65792)] := by decide +kernel
+  cases hx : allocate Avo.Gen.regs (aInstrsOf exP) with
+  | error e => rw [hx] at h; simp [Except.toOption] at h
+  | ok a => rw [hx] at h; simp [Except.toOption] at h; rw [h]
+
+/-- the bound program: v ↦ RAX, w ↦ RCX -/
+def exP' : CProg :=
+  #[⟨[], [⟨256, 15⟩], [some 1], [], []⟩, ⟨[⟨256, 15⟩], [⟨65792, 15⟩], [some 2], [], []⟩,
+    ⟨[⟨256, 1⟩, ⟨65792, 15⟩], [], [some 1, none], [], []⟩]
+
+/-- Non-vacuity of `liveness_postfix`, `avo_alloc_valid_installed`, `pipeline_preserves`, `compiled_preserves` and
+`compiled_preserves_from_entry`: all hypotheses hold for `exP`, `exP'`, a meaning that returns one value per
+definition, and one initial state for both executions. -/
+example (k : Nat) :
+    let sems : Nat → List Val → Mem → List Val × Mem × Nat :=
+      fun n vs m => (List.replicate (((toCProg exP (liveness exP (fuelBound exP)).1).getD n default).defs.flatMap locsOf).length vs.sum, m, vs.sum % 2)
+    let σ : State Loc := ⟨fun _ => 7, fun _ => 0, some 0⟩
+    (run (toProg (toCProg exP (liveness exP (fuelBound exP)).1) sems) k σ).mem = (run (toProg exP' sems) k σ).mem := by
+  intro sems σ
+  refine (compiled_preserves_from_entry exP exP_wf _ exP_allocates (by decide +kernel) exP' rfl ?_ sems ?_ σ σ rfl rfl rfl
+    (fun _ _ => rfl) k).1
+  · intro n hn
+    have hn' : n < 3 := hn
+    have : n = 0 ∨ n = 1 ∨ n = 2 := by omega
+    rcases this with rfl | rfl | rfl <;> decide +kernel
+  · intro n i hc vs m
+    simp only [toProg, Option.map_eq_some_iff] at hc
+    obtain ⟨c, hc, rfl⟩ := hc
+    simp [toInstr, sems, hc]
+
+example : checkPostFix (toCProg exP (liveness exP (fuelBound exP)).1) = true := liveness_postfix exP exP_wf
+
+example : checkValid (toCProg exP (liveness exP (fuelBound exP)).1) [(257, 256), (65793, 65792)] = true :=
+  (avo_alloc_valid_installed (aInstrsOf exP) _ exP_allocates _ (by
+    intro c hc
+    rw [Array.mem_toList_iff] at hc
+    obtain ⟨i, hi, hci⟩ := Array.mem_iff_getElem.mp hc
+    have hiP : i < exP.size := by rw [toCProg_size] at hi; exact hi
+    obtain ⟨a, ha, ho, hl⟩ := aInstrsOf_spec exP i hiP
+    exact ⟨a, ha, by rw [ho, ← hci]; simp [toCProg, cAt], by rw [hl, ← hci]; simp [toCProg, cAt]⟩)).1
+
+/-- Non-vacuity of `mkLProg_wf`: the loop of C09's example with use/def lists attached. -/
+example : WF (mkLProg ⟨[[some 1], [some 0, some 2], []], [[1], [0], [1]]⟩ [([], [⟨257, 15⟩]), ([⟨257, 15⟩], []), ([], [])]) :=
+  mkLProg_wf [.label "top", .instr ⟨false, false, false, none⟩, .instr ⟨true, true, false, some "top"⟩,
+    .instr ⟨false, false, true, none⟩] _ rfl _ rfl
 
 end Avo.Pipeline
